@@ -651,6 +651,34 @@ def verify_guards(F, s, guards):
                             hit = True
             if not hit:
                 return False, "no call /%s/ with argument %d matching /%s/ in %s" % (g["callee"], g["arg"], g["matches"], F.canon_of(fb))
+        elif kind == "reset-together":
+            # a counter compared with `limit` bounds an accumulator only if the two start over together: wherever the counter
+            # (the local of the `== limit` test) is set to 0, the accumulator (the local that is multiplied by `factor`) is set
+            # to 0 in the same block — or both are set by one whole assignment that was split (same line)
+            fb = F.fn(g["fn"])
+            cnts, accs = set(), set()
+            for bi in range(fb.n):
+                t_ = fb.term(bi)
+                if t_["k"] == "switch":
+                    d_ = fb.def_rv(t_["d"])
+                    if d_ and d_[2] == "rv" and d_[3]["k"] == "bin" and d_[3]["op"] == "Eq" and const_int(op_const(d_[3]["b"])) == g["limit"]:
+                        q_ = op_place(fb.resolve_copy(d_[3]["a"]))
+                        if q_ is not None and not q_["p"]:
+                            cnts.add(q_["l"])
+                if t_["k"] == "assert" and t_["ak"] == "overflow:Mul" and const_int(op_const(t_["ops"][1])) == g["factor"]:
+                    q_ = op_place(fb.resolve_copy(t_["ops"][0]))
+                    if q_ is not None and not q_["p"]:
+                        accs.add(q_["l"])
+            if len(cnts) != 1 or len(accs) != 1:
+                return False, "counter / accumulator of %s not found (%d / %d)" % (g["fn"], len(cnts), len(accs))
+            cnt, acc = next(iter(cnts)), next(iter(accs))
+            zero = lambda st_, l_: "lhs" in st_ and st_["lhs"]["l"] == l_ and not st_["lhs"]["p"] and st_["rv"]["k"] == "use" and const_int(op_const(st_["rv"]["o"])) == 0
+            for bi in range(fb.n):
+                sts = fb.blocks[bi]["st"]
+                if any(zero(st_, cnt) for st_ in sts) and not any(zero(st_, acc) for st_ in sts):
+                    ln_ = [st_["ln"] for st_ in sts if zero(st_, cnt)][0]
+                    return False, "%s starts the counter %s over at line %d without starting the accumulator %s over with it: the next %d bytes are added on top of the old value" % (
+                        g["fn"], fb.lname(cnt), ln_, fb.lname(acc), g["limit"])
         elif kind == "no-surrogates":
             # every [Option<u16>; 256] encoding table of the crate is free of surrogate values (evaluated from the constants)
             n = 0
